@@ -1,4 +1,5 @@
 import SafeC.Proofs.CatAll
+import SafeC.Proofs.CatSlen0
 import SafeC.Props.C06
 /-!
 # C06 — `strcpy_s strncpy_s strcat_s strncat_s` and the wide twins: the complete case split for EVERY placement of the source
@@ -351,6 +352,68 @@ the third cell appended (the terminator) would be `src[0]`: ESOVRLP; `strncat_s(
 src: EOK -/
 example : cpyRet (exec (strcat_s {} 100 6 104 none) catExSt) = some ESOVRLP ∧
     cpyRet (exec (strncat_s {} 100 6 104 1 none none) catExSt) = some EOK := by
+  decide
+
+/-! ### `slen == 0` of the bounded concatenations (the `_all` theorems above have `0 < slen`) -/
+
+/-- the conclusion of the `slen == 0` special case: `dl` = length of the dest string, `dmax` if dest holds no NUL -/
+def CatSlen0 (cfg : Cfg) (dest dmax dl : Nat) (st st' : St) (code : Nat) : Prop :=
+  code = (if dl < dmax then EOK else ESZEROL) ∧
+  st'.data dest = 0 ∧ (cfg.slack = true → ∀ i, i < dmax → st'.data (dest + i) = 0) ∧
+  st'.events = st.events ++ [.handler .str code] ∧ st'.strays = st.strays ∧
+  (∀ a, ¬ (dest ≤ a ∧ a < dest + dmax) → st'.data a = st.data a)
+
+/-- **strncat_s(dest, dmax, src, 0)** as the code (and its man page: "analog to msvcrt") defines it: EOK when dest is
+terminated within `dmax`, else ESZEROL — and in BOTH cases dest is cleared and the handler called once with the code
+returned (with EOK: listed `strncat-slen0-handler-eok`); `src` is not read.  So at `slen = 0` EOK does NOT mean
+"dest = old dest ++ nothing": see the witness. -/
+theorem strncat_s_C06_slen0 (cfg : Cfg) (dest dmax src dl : Nat) (destbos srcbos : Bos) (st : St)
+    (hall : ∀ a, st.mapped a = true ∧ st.rd a = true)
+    (hd : dest ≠ 0) (hs : src ≠ 0) (hpos : 0 < dmax) (hle : dmax ≤ RSIZE_MAX_STR)
+    (hb : ∀ b, destbos = some b → dmax ≤ b)
+    (hrw : RW st dest dmax)
+    (hdl : dl ≤ dmax) (hdnz : ∀ j, j < dl → st.data (dest + j) ≠ 0) (hdnul : dl < dmax → st.data (dest + dl) = 0) :
+    ∃ code st', exec (strncat_s cfg dest dmax src 0 destbos srcbos) st = .ok (code, st') ∧
+      CatSlen0 cfg dest dmax dl st st' code := by
+  unfold strncat_s
+  rw [strncatG_slen0_eq _ cfg dest dmax src destbos srcbos hd hs hpos hle hb]
+  obtain ⟨len, he, hlen⟩ := strnlen_s_first dest dmax st hall hd hpos hle
+  have e := hlen.unique hdl hdnz hdnul
+  subst e
+  simp only [exec_bind, he]
+  obtain ⟨st', hx, hp⟩ := copyFail_cleared cfg dest dmax (if len < dmax then EOK else ESZEROL) st hrw hpos
+  simp only [exec_bind] at hx
+  exact ⟨_, st', hx, rfl, hp.2.2.1, hp.2.2.2.1, hp.2.1, hp.1, hp.2.2.2.2⟩
+
+theorem wcsncat_s_C06_slen0 (cfg : Cfg) (dest dmax src dl : Nat) (destbos srcbos : Bos) (st : St)
+    (hall : ∀ a, st.mapped a = true ∧ st.rd a = true)
+    (hd : dest ≠ 0) (hs : src ≠ 0) (hpos : 0 < dmax) (hle : dmax ≤ RSIZE_MAX_WSTR)
+    (hb : ∀ b, destbos = some b → dmax * SIZEOF_WCHAR_T ≤ b)
+    (hrw : RW st dest dmax)
+    (hdl : dl ≤ dmax) (hdnz : ∀ j, j < dl → st.data (dest + j) ≠ 0) (hdnul : dl < dmax → st.data (dest + dl) = 0) :
+    ∃ code st', exec (wcsncat_s cfg dest dmax src 0 destbos srcbos) st = .ok (code, st') ∧
+      CatSlen0 cfg dest dmax dl st st' code := by
+  rw [wcsncat_s_slen0_eq cfg dest dmax src destbos srcbos hd hs hpos hle hb]
+  obtain ⟨len, he, hlen⟩ := wcsnlen_s_first dest dmax st hall hd hpos hle
+  have e := hlen.unique hdl hdnz hdnul
+  subst e
+  simp only [exec_bind, he]
+  obtain ⟨st', hx, hp⟩ := copyFail_cleared cfg dest dmax (if len < dmax then EOK else ESZEROL) st hrw hpos
+  simp only [exec_bind] at hx
+  exact ⟨_, st', hx, rfl, hp.2.2.1, hp.2.2.2.1, hp.2.1, hp.1, hp.2.2.2.2⟩
+
+/-- the code and one cell of a run -/
+def cpyObs (r : Except Fault (Nat × St)) (a : Nat) : Option (Nat × Nat) :=
+  match r with
+  | .ok (c, st) => some (c, st.data a)
+  | .error _ => none
+
+/-- `strncat_s(d = "xy", 6, "ab", 0)` on `catExSt`: EOK with `d[0] = 0` — success, but dest is not "xy" ++ "" (the
+documented special case; `strncat(d, s, 0)` leaves `d` alone).  The conclusion of `strncat_s_C06_all` does not extend
+to `slen = 0`. -/
+theorem strncat_s_C06_slen0_witness :
+    catExSt.data 100 ≠ 0 ∧ cpyObs (exec (strncat_s {} 100 6 104 0 none none) catExSt) 100 = some (EOK, 0) ∧
+      cpyObs (exec (wcsncat_s {} 100 6 104 0 none none) catExSt) 100 = some (EOK, 0) := by
   decide
 
 end SafeC.Props.C06
